@@ -136,9 +136,10 @@ impl EpochSnapshotManager {
             {
                 queue.push_back(snapshot);
             } else {
+                // The name is not logged: snapshot names embed the group id
                 tracing::warn!(
-                    "Failed to parse snapshot name during hydration: {}",
-                    snapshot_name
+                    "Failed to parse snapshot name during hydration ({} bytes, name redacted)",
+                    snapshot_name.len()
                 );
             }
         }
